@@ -23,7 +23,9 @@ def preload():
 
 def make_fasta(rng, n, maxlen, width, eol="\n", descriptions=True, final_newline=True):
     recs, text, index = [], "", []
-    for i in range(n):
+    order = list(range(n))
+    rng.shuffle(order)          # file order differs from the sorted order of the names
+    for i in order:
         name = "c%d%s" % (i, rng.choice(["", "x", "_alt", ".1"]))
         desc = (" " + rng.choice(["desc", "len=5 x"])) if descriptions and rng.random() < 0.4 else ""
         L = rng.choice([1, width - 1, width, width + 1, 2 * width, 2 * width + 1, rng.randint(1, maxlen)])
@@ -77,6 +79,11 @@ def run(ctx):
         multi = any(len(s) > c["width"] for _, s in recs)
         ctx.check("contig-lengths", {k: int(v) for k, v in lens.items()} == {n: len(s) for n, s in recs}, "get_contig_lengths", "get_contig_lengths %r != true lengths %r" % (dict(lens), {n: len(s) for n, s in recs}),
                   dict(c, text=text, got={k: int(v) for k, v in lens.items()}), (text, src, "lens") if multi else None)
+        # fetch every contig first and keep the results, compare afterwards (results must be independent objects)
+        held = {k: v for k, v in idx.items()}
+        held2 = {name: idx[name] for name, _ in reversed(recs)}
+        ok = list(held) == [nm for nm, _ in recs] and all(held[nm].to_string() == sq and held2[nm].to_string() == sq for nm, sq in recs)
+        ctx.check("whole-contig", ok, "whole-contig-fetch:results-kept-while-fetching-others", "dict(fasta.items()) gave %r, expected %r" % ({k: v.to_string() for k, v in held.items()}, dict(recs)), dict(c, text=text), (text, src, "items") if len(recs) >= 2 else None)
         for name, s in recs:
             got = idx[name].to_string()
             ctx.check("whole-contig", got == s, "whole-contig-fetch:%s" % tag, "f[%r] gave %r expected %r" % (name, got, s), dict(c, text=text, name=name, got=got), (text, src, name) if len(s) > c["width"] else None)
@@ -108,12 +115,13 @@ def run(ctx):
             ctx.check("interval:single", g == [d[q[0]][q[1]:q[2]]], "interval-fetch:single:%s" % tag, "single fetch %r gave %r" % (q, g), dict(c, text=text, query=q, got=g), (text, src, q, 1))
         # Genome route
         if c.get("genome") and c["eol"] == "\n":
-            g = bnp.Genome.from_file(path)
+            g = bnp.Genome.from_file(path, sort_names=bool(c["seed"] % 2))       # genome order may differ from the file order
             seq = g.read_sequence()
             kept = [q for q in all_iv if "_" not in q[0]]          # Genome.from_file ignores '_' contigs by default
             if not kept:
                 return
-            qs = sorted(r.sample(kept, min(8, len(kept))), key=lambda t: (names.index(t[0]), t[1], t[2]))
+            gorder = list(g.get_genome_context().chrom_sizes)
+            qs = sorted(r.sample(kept, min(8, len(kept))), key=lambda t: (gorder.index(t[0]), t[1], t[2]))
             gi = g.get_intervals(Interval([q[0] for q in qs], [q[1] for q in qs], [q[2] for q in qs]))
             res = [t.upper() for t in text_rows(seq[gi])]
             ctx.count("genome_route")
@@ -139,15 +147,16 @@ def run(ctx):
     ctx.sample({"case": cases[0], "meaning": "make_fasta(Random(seed), n, maxlen, width) -> file; all intervals fetched"})
 
     # ---- multi-chunk index (thorough): offsets must accumulate across 5 MB chunks ------------------
-    if not ctx.quick and ctx.shard == 0:
+    if ctx.shard == 0:
         def big(_):
-            r = random.Random(5)
+            r = random.Random(5 + ctx.seed)
             path = ctx.path("big.fa")
             recs, index, pos = [], [], 0
+            nprng = np.random.default_rng(ctx.seed + 5)
             with open(path, "w") as f:
-                for i in range(40):
-                    L = r.randint(200000, 400000)
-                    s = "".join(r.choices("ACGT", k=L))
+                for i in range(ctx.pick(12, 40)):
+                    L = r.randint(900000, 1100000) if ctx.quick else r.randint(200000, 400000)
+                    s = nprng.choice(np.frombuffer(b"ACGT", dtype=np.uint8), size=L).tobytes().decode()
                     h = ">big%d\n" % i
                     f.write(h)
                     off = pos + len(h)
